@@ -59,10 +59,10 @@ def packageStateTable : List (String × String × String) := [
   (".", "ParseErrorsToString", "alias"),
   ("internal/analysis", "AllowedTypes", "table"),
   ("internal/analysis", "Builtins", "table"),
-  ("internal/cmd", "checkCmd", "pointer"),
-  ("internal/cmd", "lspCmd", "pointer"),
+  ("internal/cmd", "checkCmd", "cobra"),
+  ("internal/cmd", "lspCmd", "cobra"),
   ("internal/cmd", "overdraftFeatureFlag", "scalar"),
-  ("internal/cmd", "rootCmd", "pointer"),
+  ("internal/cmd", "rootCmd", "cobra"),
   ("internal/cmd", "runBalancesOpt", "scalar"),
   ("internal/cmd", "runMetaOpt", "scalar"),
   ("internal/cmd", "runOutFormatOpt", "scalar"),
